@@ -1,4 +1,5 @@
 import Originium.Model.SchedProofs
+import Originium.Generated.LockTable
 /-! # C15 — every call returns: no deadlock among commits, readers, flusher and Close
 
 `Sched.Reach cap nc nr s`: `s` is reachable with a flush queue of capacity `cap` (any value, 0 =
@@ -56,6 +57,56 @@ theorem C15_old_close_stuck :
   intro st
   cases st <;> simp [step, lockFree, closerHolds]
 
+
+/-! ## the atomicity assumption of the blocking model, checked against the source on every run
+
+`Sched` treats every section under `DB.mu`, `memtable.mu`, `levelManager.mu`, `WAL.mu` and the
+oracle mutex as an atomic step.  That is sound when (1) none of these locks is ever held at a point
+where the goroutine waits for *another goroutine's progress* (channel send / receive,
+`WaitForMark`) — only `oracle.writeLock` may be, and the model has it — and (2) they are acquired
+in one fixed order, so sections under them cannot wait for each other in a cycle.  Both are
+decided by kernel evaluation over `LockTable.brows`, the table of all potentially blocking
+operations with the locks held there, regenerated from `/repo` by the extractor. -/
+
+def isWait (r : LockTable.BRow) : Bool := r.kind == "send" || r.kind == "recv" || r.kind == "wait"
+def isAcquire (r : LockTable.BRow) : Bool := r.kind == "lock" || r.kind == "rlock"
+
+/-- the fixed acquisition order; a lock the theorem does not know has no rank at all -/
+def lockRank (l : String) : Option Nat :=
+  if l == "oracle.writeLock" then some 0
+  else if l == "DB.mu" then some 1
+  else if l == "memtable.mu" then some 2
+  else if l == "levelManager.mu" then some 2
+  else if l == "WAL.mu" then some 3
+  else if l == "oracle.Mutex" then some 3
+  else none
+
+def waitsOk (rs : List LockTable.BRow) : Bool :=
+  rs.all fun r => !isWait r || r.held.all fun l => l.1 == "oracle.writeLock"
+
+def orderOk (rs : List LockTable.BRow) : Bool :=
+  rs.all fun r => !isAcquire r ||
+    match lockRank r.obj with
+    | none => false
+    | some k => r.held.all fun l => match lockRank l.1 with
+      | some j => decide (j < k)
+      | none => false
+
+/-- wherever a goroutine can wait for another one's progress it holds no lock except `writeLock` -/
+theorem C15_waits_hold_only_writeLock : waitsOk LockTable.brows = true := by decide +kernel
+
+/-- every lock acquisition respects the order writeLock < DB.mu < {memtable.mu, levelManager.mu} < {WAL.mu, oracle mutex} -/
+theorem C15_lock_order : orderOk LockTable.brows = true := by decide +kernel
+
+/-- the table is not empty: the three channel operations of the close / flush protocol and the
+    commit-mark wait of Begin are in it -/
+theorem C15_block_table_nontrivial :
+    (LockTable.brows.any fun r => r.kind == "send" && r.obj == "DB.flushC") = true ∧
+    (LockTable.brows.any fun r => r.kind == "send" && r.obj == "DB.closeC") = true ∧
+    (LockTable.brows.any fun r => r.kind == "recv" && r.obj == "DB.closed") = true ∧
+    (LockTable.brows.any fun r => r.kind == "wait") = true ∧
+    (LockTable.brows.any fun r => r.kind == "lock" && r.obj == "DB.mu" && !r.held.isEmpty) = true := by decide +kernel
+
 /-- non-vacuity: a run with a zero-capacity queue in which a commit rotates, a reader begins meanwhile, Close races both, and everything finishes -/
 example : ∃ s, Reach 0 1 1 s ∧ s.cl = ClPc.done ∧ s.cDone = 1 ∧ s.rDone = 1 := by
   have h : (runSteps [.cCall, .cLock true, .rCall, .clCall, .cApply, .cSend, .cFinish, .rWake 0, .fDone,
@@ -69,6 +120,9 @@ example : ∃ s, Reach 0 1 1 s ∧ s.cl = ClPc.done ∧ s.cDone = 1 ∧ s.rDone 
   exact this
 
 #print axioms C15_no_stuck_state
+#print axioms C15_waits_hold_only_writeLock
+#print axioms C15_lock_order
+#print axioms C15_block_table_nontrivial
 #print axioms C15_progress
 #print axioms C15_bound
 #print axioms C15_close
